@@ -364,6 +364,26 @@ impl Property for C08 {
                 sc.family = "soup".into();
             }
         }
+        // odd but legal environments: search path entries that are empty, a file, or missing; an include
+        // target that is a dangling or looping symbolic link; the path argument naming a directory
+        if rng.chance(1, 6) {
+            let extra = *rng.pick(&["", ".", "/w/top.sv", "/nonexistent", "/w/../w", "/inc1/"]);
+            let at = rng.usize_below(call.include_paths.len() + 1);
+            call.include_paths.insert(at, extra.to_string());
+        }
+        if rng.chance(1, 12) {
+            let victims: Vec<String> = sc.vfs.iter().map(|n| n.path().to_string()).filter(|p| p.ends_with(".svh")).collect();
+            if !victims.is_empty() {
+                let v = rng.pick(&victims).clone();
+                sc.vfs.retain(|n| n.path() != v);
+                let target = if rng.coin() { v.rsplit('/').next().unwrap_or("x").to_string() } else { "gone.svh".to_string() };
+                sc.vfs.push(VNode::Symlink { path: v, target });
+                sc.family = format!("{}+symlink", sc.family);
+            }
+        }
+        if rng.chance(1, 40) {
+            call.path = "/w".to_string();
+        }
         call.hash_seed = rng.next();
         call.allow_incomplete = rng.coin();
         call.ignore_include = rng.chance(1, 8);
